@@ -84,7 +84,7 @@ def main():
              "kind_free_text": "TLA+ specifications checked with TLC; spec->impl replay and impl->spec trace validation through a JSON-program interpreter over the real crate"},
         ] + extra.get("engines", []),
         "checks": checks,
-        "notes": "See DESIGN.md. known-findings.txt lists the one genuine defect found (fixed in /repo commit 'fix: clamp Min timer ...').",
+        "notes": "See DESIGN.md. known-findings.txt lists the two genuine defects found, both repaired in /repo: 'fix: clamp Min timer re-queue time ...' (C08, f7545dd) and 'fix: stop forwarding a channel batch once the ChannelGuard has been dropped' (C13, 1acbc20).",
         "not_applicable": [{"property_id": k, "reason": v} for k, v in sorted(notyet.items())],
     }
     json.dump(m, open(os.path.join(V, "MANIFEST.json"), "w"), indent=1)
